@@ -20,6 +20,7 @@ CHECK = {
         {"fn": P + "vC45_fusedStep", "replay": "model-only"},
         {"fn": P + "vC45_batchStep", "replay": "model-only"},
         {"fn": P + "vC45_batchHistory", "replay": "model-only"},
+        {"fn": P + "vC45_parallel", "replay": "model-only", "cases": {"ordered": [0, 1]}},
     ],
     "opts": {"unwind": 8, "substitute": SUB},
     "stop": [k for k in SUB.keys() if "ReceiveContext" in k],
